@@ -290,7 +290,9 @@ func (s *selectForUpdateExecutor) buildLockKey(rows driver.Rows, meta *types.Tab
 			if f, ok := ty.MethodByName("Value"); ok {
 				res := f.Func.Call([]reflect.Value{reflect.ValueOf(value)})
 				if res[1].IsNil() { // res[0]: driver.Value, [1]: error
-					lockKeys.WriteString(res[0].Elem().String())
+					// the text the writers put into their lock keys (buildLockKey): the coordinator compares texts.
+					// reflect's String() would give "<time.Time Value>" for every point in time.
+					lockKeys.WriteString(fmt.Sprintf("%v", res[0].Interface()))
 				}
 				continue
 			}
